@@ -4,6 +4,7 @@ CONSTANTS
   Bodies <- BodiesAll
   Modes <- AllModes
   ValueChoices <- TwoValueLists
+  Ends <- OneEnd
   Seconds <- NoSecond
   TickMs <- Ticks2
   MaxTicks = 8
